@@ -1028,6 +1028,7 @@ class FnTranslator:
     def function(self, f, lean_name=None, annotate_default=None):
         if f.args.vararg or f.args.kwarg or f.args.posonlyargs:
             raise Unsupported("star arguments")
+        check_value_semantics(f)
         args = list(f.args.args) + list(f.args.kwonlyargs)
         defaults = [None] * (len(f.args.args) - len(f.args.defaults)) + list(f.args.defaults) + list(f.args.kw_defaults)
         params, env = [], {}
@@ -1107,6 +1108,118 @@ def translate_module(path, want, sigs, namespace, header, class_name=None):
         out.append(f"-- NOT TRANSLATED `{f.name}`: {report[f.name]}\n")
     out.append(f"end {namespace}\n")
     return "\n".join(out), sigs, report
+
+
+MUTATORS = ("append", "extend", "remove")
+
+
+def check_value_semantics(f):
+    """The translation gives lists VALUE semantics.  Python lists are shared, mutable objects, so that is only faithful if no
+    list is mutated in place while another reference to it exists.  Conservative syntactic guard (reject, never guess):
+      * decorators other than `staticmethod` (e.g. `lru_cache`: calls would share one result object) are rejected;
+      * `y = x` (a second name for the same list) is rejected when `x` or `y` is mutated in place anywhere in the function;
+      * a parameter that is mutated in place is rejected (the caller's object would change);
+      * after a list has been stored somewhere (appended to / put into another list, a dict, a tuple, a call argument, returned,
+        yielded into a comprehension) it must not be mutated in place until its name is re-bound to a fresh value — loops are
+        scanned twice so that a store in one iteration followed by a mutation in the next is seen."""
+    for d in f.decorator_list:
+        if not (isinstance(d, ast.Name) and d.id == "staticmethod"):
+            raise Unsupported(f"decorator {ast.unparse(d)}")
+    mutated = set()
+    for n in ast.walk(f):
+        if isinstance(n, (ast.Assign, ast.AugAssign)):
+            for t in (n.targets if isinstance(n, ast.Assign) else [n.target]):
+                for e in ([t] if not isinstance(t, ast.Tuple) else t.elts):
+                    if isinstance(e, ast.Subscript) and isinstance(e.value, ast.Name):
+                        mutated.add(e.value.id)
+            if isinstance(n, ast.AugAssign) and isinstance(n.target, ast.Name):
+                mutated.add(n.target.id)          # `x += [...]` extends the list in place
+        if isinstance(n, ast.Call) and isinstance(n.func, ast.Attribute) and n.func.attr in MUTATORS and isinstance(n.func.value, ast.Name):
+            mutated.add(n.func.value.id)
+    params = {a.arg for a in f.args.args + f.args.kwonlyargs}
+    scalar = {a.arg for a in f.args.args + f.args.kwonlyargs if a.annotation is not None and ast.unparse(a.annotation) in ("int", "bool", "str")}
+    bad = (mutated & params) - scalar
+    # `step = step % len(items)` style re-binding of an int parameter is not a mutation; AugAssign on an un-annotated / list parameter is
+    if bad:
+        raise Unsupported(f"parameter {sorted(bad)[0]} is mutated in place")
+    for n in ast.walk(f):
+        if isinstance(n, ast.Assign) and isinstance(n.value, ast.Name) and len(n.targets) == 1 and isinstance(n.targets[0], ast.Name):
+            if n.value.id in mutated or n.targets[0].id in mutated:
+                if n.value.id not in scalar:
+                    raise Unsupported(f"`{n.targets[0].id} = {n.value.id}` gives a second name to a list that is mutated in place")
+    events = []
+
+    def stores_in(expr, skip_top=False):
+        """names whose object escapes into another object through `expr`"""
+        out = []
+        for sub in ast.walk(expr):
+            if isinstance(sub, (ast.List, ast.Tuple, ast.Dict, ast.Set)):
+                for e in (sub.elts if not isinstance(sub, ast.Dict) else sub.values):
+                    if isinstance(e, ast.Name):
+                        out.append(e.id)
+            if isinstance(sub, ast.Call):
+                fn = sub.func
+                if isinstance(fn, ast.Name) and fn.id in ("len", "sorted", "list", "tuple", "str", "range", "min", "max", "any", "all", "sum", "enumerate", "map"):
+                    continue   # builtins that copy or only read
+                for e in list(sub.args) + [k.value for k in sub.keywords]:
+                    if isinstance(e, ast.Name):
+                        out.append(e.id)
+        return out
+
+    def walk(stmts):
+        for st in stmts:
+            if isinstance(st, ast.For):
+                events.append(("fresh", ast.unparse(st.target)))
+                for nm in ast.walk(st.target):
+                    if isinstance(nm, ast.Name):
+                        events.append(("fresh", nm.id))
+                walk(st.body)
+                walk(st.body)
+            elif isinstance(st, ast.If):
+                walk(st.body)
+                walk(st.orelse)
+            elif isinstance(st, ast.Assign):
+                for x in stores_in(st.value):
+                    events.append(("store", x))
+                for t in st.targets:
+                    for e in ([t] if not isinstance(t, ast.Tuple) else t.elts):
+                        if isinstance(e, ast.Name):
+                            events.append(("fresh", e.id))
+                        elif isinstance(e, ast.Subscript) and isinstance(e.value, ast.Name):
+                            events.append(("mut", e.value.id))
+                            if isinstance(st.value, ast.Name):
+                                events.append(("store", st.value.id))      # d[k] = x
+            elif isinstance(st, ast.AugAssign):
+                for x in stores_in(st.value):
+                    events.append(("store", x))
+                if isinstance(st.target, ast.Name):
+                    events.append(("mut", st.target.id))
+                elif isinstance(st.target, ast.Subscript) and isinstance(st.target.value, ast.Name):
+                    events.append(("mut", st.target.value.id))
+            elif isinstance(st, ast.Expr) and isinstance(st.value, ast.Call) and isinstance(st.value.func, ast.Attribute) \
+                    and st.value.func.attr in MUTATORS and isinstance(st.value.func.value, ast.Name):
+                for a in st.value.args:
+                    if isinstance(a, ast.Name):
+                        events.append(("store", a.id))
+                    else:
+                        for x in stores_in(a):
+                            events.append(("store", x))
+                events.append(("mut", st.value.func.value.id))
+            elif isinstance(st, ast.Return) and st.value is not None:
+                pass
+            elif isinstance(st, (ast.Expr, ast.Assert)):
+                pass
+
+    walk(f.body)
+    stored = set()
+    for kind, x in events:
+        if kind == "fresh":
+            stored.discard(x)
+        elif kind == "store":
+            stored.add(x)
+        elif kind == "mut" and x in stored and x not in scalar:
+            # strings and ints are immutable: `name += "-ic"` re-binds
+            raise Unsupported(f"list {x} is mutated in place after it was stored in another object")
 
 
 def dispatcher(*sig_maps):
